@@ -125,6 +125,7 @@ fn order_pair(ctx: &mut Ctx, a: &Num, b: &Num) {
     let info = || format!("a={} b={}", a.show(), b.show());
     let r = guard(|| (la.cmp(&lb), lb.cmp(&la), la == lb, la.partial_cmp(&lb)));
     ctx.count("order.pairs");
+    ctx.evals += 1;
     match r {
         Err(p) => ctx.panic_violation("Number::cmp", &p, &info),
         Ok((ab, ba, eq, pc)) => {
@@ -286,6 +287,7 @@ pub fn run(ctx: &mut Ctx) {
         x += stride;
     }
     ctx.count_n("sweep32.roundtrips", swept);
+    ctx.evals += swept;
     ctx.exhaustive.insert("sweep32(all i32 as Int64, u32 as UInt64, f32 patterns as Float64)".into(), stride == 1);
     ctx.distinct(crate::prng::mix(lo, hi));
 
